@@ -1,4 +1,5 @@
 import SecsModel.Props.C03
+import SecsModel.Props.C03b
 #print axioms SecsModel.Props.C03.keys_unique
 #print axioms SecsModel.Props.C03.lookup_total
 #print axioms SecsModel.Props.C03.all_parse
@@ -7,3 +8,12 @@ import SecsModel.Props.C03
 #print axioms SecsModel.Props.C03.yaml_agrees
 #print axioms SecsModel.Props.C03.data_items_wellformed
 #print axioms SecsModel.Props.C03.rows_ok
+#print axioms SecsModel.Props.C03b.struct_defined
+#print axioms SecsModel.Props.C03b.function_roundtrip
+#print axioms SecsModel.Props.C03b.function_roundtrip_exact
+#print axioms SecsModel.Props.C03b.header_only
+#print axioms SecsModel.Props.C03b.unknown_function
+#print axioms SecsModel.Props.C03b.matchType_first_fit
+#print axioms SecsModel.Props.C03b.plain_value_readback
+#print axioms SecsModel.Props.C03b.witness_int_becomes_text
+#print axioms SecsModel.Props.C03b.witness_array_in_pass2
